@@ -206,6 +206,16 @@ pub fn pick_dialect(rng: &mut Rng) -> Dialect {
 pub const NAMES: [&str; 8] = ["f", "g", "d/h", "d/e/k", "n1", "d/n2", "m", "sp ace"];
 pub const MODES: [u32; 3] = [0o100644, 0o100755, 0o100600];
 
+/// another spelling of the same file name: a leading "./" (survives -p0 as a `.` component), a doubled
+/// separator, an inner "/./" — `Path` equality and the file system make no difference between them
+pub fn respell(rng: &mut Rng, n: &str) -> String {
+    let k = rng.below(100);
+    if k < 9 { format!("./{}", n) }
+    else if k < 12 && n.contains('/') { n.replacen('/', "//", 1) }
+    else if k < 15 && n.contains('/') { n.replacen('/', "/./", 1) }
+    else { n.to_string() }
+}
+
 pub struct GenPatch {
     pub text: Vec<u8>,
     pub p: usize,
@@ -256,7 +266,8 @@ pub fn gen_patch(rng: &mut Rng, tree: &mut Tree, allow_fail: bool, rich: bool) -
                 Some(o) => (name.clone(), o.clone()),                                                // old exists -> old is patched
                 None => (name.clone(), name.clone()),
             };
-            text.extend_from_slice(&render_header(&HeaderSpec { old: Some(&old_name), new: Some(&new_name), dialect, p, rename: false,
+            let (old_sp, new_sp) = if old_name == new_name { let s = respell(rng, &old_name); (s.clone(), s) } else { (respell(rng, &old_name), respell(rng, &new_name)) };
+            text.extend_from_slice(&render_header(&HeaderSpec { old: Some(&old_sp), new: Some(&new_sp), dialect, p, rename: false,
                 old_mode: new_mode.map(|_| f.mode), new_mode, creating: false, deleting: false, has_hunks: true }));
             text.extend_from_slice(&hs);
             if corrupt.is_some() { ok = false; }
@@ -273,7 +284,8 @@ pub fn gen_patch(rng: &mut Rng, tree: &mut Tree, allow_fail: bool, rich: bool) -
             let ops: Vec<Op> = lines.iter().map(|l| Op::Ins(l.clone())).collect();
             let mode = if dialect == Dialect::Git && rng.chance(60) { Some(*rng.pick(&MODES)) } else { None };
             let both_names = rng.chance(25) && dialect != Dialect::Git;
-            text.extend_from_slice(&render_header(&HeaderSpec { old: if both_names { Some(&name) } else { None }, new: Some(&name), dialect, p, rename: false,
+            let name_sp = respell(rng, &name);
+            text.extend_from_slice(&render_header(&HeaderSpec { old: if both_names { Some(&name_sp) } else { None }, new: Some(&name_sp), dialect, p, rename: false,
                 old_mode: None, new_mode: mode, creating: true, deleting: false, has_hunks: true }));
             text.extend_from_slice(&render_hunks(&ops, 0, None, 0));
             if clash { ok = false; } else { tree.insert(name.clone(), GenFile { lines, mode: mode.unwrap_or(0o100644) }); }
@@ -287,7 +299,8 @@ pub fn gen_patch(rng: &mut Rng, tree: &mut Tree, allow_fail: bool, rich: bool) -
             if fail_here { lines[0].insert(0, b'#'); }
             let ops: Vec<Op> = lines.iter().map(|l| Op::Del(l.clone())).collect();
             let mode = if dialect == Dialect::Git && rng.chance(60) { Some(f.mode) } else { None };
-            text.extend_from_slice(&render_header(&HeaderSpec { old: Some(&name), new: None, dialect, p, rename: false,
+            let name_sp = respell(rng, &name);
+            text.extend_from_slice(&render_header(&HeaderSpec { old: Some(&name_sp), new: None, dialect, p, rename: false,
                 old_mode: mode, new_mode: None, creating: false, deleting: true, has_hunks: true }));
             text.extend_from_slice(&render_hunks(&ops, 0, None, 0));
             if fail_here { ok = false; } else { tree.remove(&name); }
